@@ -80,6 +80,7 @@ FAMILIES = {
     "camel": {"module": "CamelCase", "judge": "CamelCaseTrace"},
     "typeref": {"module": "TypeRef", "judge": "TypeRefTrace"},
     "template": {"module": "Template", "judge": "TemplateTrace"},
+    "dispatch": {"module": "Dispatch", "judge": "DispatchTrace"},
     "pipeline": {"module": "MC_PipelineHist", "judge": "PipelineTrace", "by_history": True},
     "tracker": {"module": "MC_ImportTracker", "judge": "ImportTrackerTrace"},
     "comments": {"module": "Comments", "judge": "CommentsTrace"},
@@ -262,6 +263,32 @@ def check_C02(ctx):
         rand_n=100 if ctx.quick() else 2000)
 
 
+def check_C06(ctx):
+    reps = 2 if ctx.quick() else 8
+    res = run_family(ctx, "dispatch", "Dispatch", ["Dispatch_gen.cfg"] * reps, "DispatchTrace", a_cfgs=["Dispatch_A.cfg"], shard=300)
+    fails = vlib.collect_failures(res["trace"], res["bad"], "dispatch", only_prefix="C06")
+    tr = res["trace"]
+    cov = {
+        "traces_validated_against_impl": len(tr),
+        "evaluations": sum(len(r["obs"]["calls"]) for r in tr),
+        "distinct_nontrivial": _distinct(tr, lambda r: r["case"]["gp"] != "none" or r["case"]["pp"] != "none", key=lambda r: json.dumps([r["case"]["gp"], r["case"]["pp"], r["case"]["gens"]])),
+        "rule": "Dispatch.tla enumerates the full placement lattice: global x package level in {absent, gengo:a, gengo:a=false, gengo:a=true, gengo:a:b, both false and sub} x 4 generator "
+                "lists over the names a, ab, a:b (prefixes of one another); every module holds 24 package-level declarations = the 6 declaration-level placements x {defined, "
+                "generic, alias to local, alias to foreign type}, plus function-local types (one shadowing a package-level name, one alias), type parameters named like "
+                "package-level types, a second package comment file and a tagged foreign package; each is run %d times in fresh processes with recording generators whose "
+                "deferred callbacks (one registering a nested callback) log when they run. evaluations = callbacks judged; non-trivial = distinct (global, package, generator list) "
+                "with a tag above declaration level." % reps,
+        "exhaustive": True,
+        "modules_run": len(tr),
+        "samples": [{"case": {k: r["case"][k] for k in ("gp", "pp", "gens")}, "calls": r["obs"]["calls"][:10]} for r in tr[:: max(1, len(tr) // 3)][:3]],
+    }
+    return vlib.finish(ctx, "model_checking", cov, [
+        "at most one value per tag key at each level (multi-valued gengo:<name> tags at one level are not generated; statement silent)",
+        "generator tags only in one of the package's two package comments (merge order across files is map/file order; statement silent)",
+        "alias declarations are observed as *types.Alias (Go >= 1.23 default)",
+    ], fails)
+
+
 def check_C07(ctx):
     return pipeline_check(ctx, "C07",
         "PipelineHist.tla enumerates pre-existing file sets (user.go, zz_generatedx.go, zz_generated, stale zz_generated.old.go, notes.txt; planted before or after a first "
@@ -412,6 +439,7 @@ CHECKS = {
     "C03": check_C03,
     "C04": check_C04,
     "C05": check_C05,
+    "C06": check_C06,
     "C07": check_C07,
     "C08": check_C08,
     "C09": check_C09,
